@@ -51,6 +51,15 @@ var (
 // TakeCensus snapshots every goroutine but the calling one. Only one
 // goroutine may take censuses at a time (they share a buffer).
 func TakeCensus() Census {
+	// A goroutine that polls censuses (a hook handler waiting for a helper
+	// goroutine to react) is blocked on censusMu whenever Quiesce takes its
+	// own snapshot and would look parked twice in a row: advancing the
+	// logical clock here keeps Quiesce from mistaking that for quiescence.
+	Stamp()
+	return takeCensus()
+}
+
+func takeCensus() Census {
 	censusMu.Lock()
 	defer censusMu.Unlock()
 	n := runtime.Stack(censusBuf, true)
@@ -211,7 +220,7 @@ func Quiesce(watchdog time.Duration) (Census, bool) {
 		for i := 0; i < 50; i++ {
 			runtime.Gosched()
 		}
-		c := TakeCensus()
+		c := takeCensus()
 		clk := Clock.Load()
 		if c.AllBlocked() {
 			sig := c.Signature()
